@@ -1723,6 +1723,12 @@ struct sig_t
     void tensor(const ttensor& t)
     {
         add(static_cast<int64_t>(t.size()));
+        if (t.size() > 4096)
+        {
+            // large storage (e.g. the pre-allocated pixels of an image data source): a hash of the raw bytes
+            add(static_cast<int64_t>(vf::hash_bytes(t.data(), static_cast<size_t>(t.size()) * sizeof(*t.data()))));
+            return;
+        }
         for (tensor_size_t i = 0, n = t.size(); i < n; ++i)
         {
             const auto v = static_cast<double>(t.data()[i]);
@@ -2080,9 +2086,10 @@ int modify_all(fctx_t& f, tobject& obj)
 //  tprobe:  sig_t(tobject&)            behaviour on the probe input of this case (deterministic)
 //  tsetup:  void(tobject&)             family specific configuration before cloning
 //  tmutate: void(tobject&)             family specific modification (beyond parameters) of an object
-template <class tobject, class tsetup, class tprobe, class tmutate>
+//  tpost:   sig_t(tobject&)            behaviour that uses the state left by the probe (predict of a fitted model, ...)
+template <class tobject, class tsetup, class tprobe, class tmutate, class tpost>
 void check_object(fctx_t& f, factory_t<tobject>& factory, const tsetup& setup, const tprobe& probe, const tmutate& mutate,
-                  const bool repeatable)
+                  const bool repeatable, const tpost& post)
 {
     auto& c = f.c;
 
@@ -2125,6 +2132,10 @@ void check_object(fctx_t& f, factory_t<tobject>& factory, const tsetup& setup, c
     {
         return;
     }
+    if (defaults.size() > 1 && snapshot_diff(defaults, snapshot(*obj)).empty() && !configure_moderately(f, *obj, 1.0))
+    {
+        return; // (second pass: an object with parameters is never cloned in its default configuration only)
+    }
     setup(*obj);
     const auto configured = snapshot(*obj);
     f.t.steps.push_back("clone it twice (control, victim)");
@@ -2165,6 +2176,36 @@ void check_object(fctx_t& f, factory_t<tobject>& factory, const tsetup& setup, c
     if (snapshot_diff(after_probe, snapshot(*control)) != "" || ser_obj != serialize(*control))
     {
         f.fail("clone-not-equal", "object and clone differ after the same probe: " + snapshot_diff(after_probe, snapshot(*control)));
+        return;
+    }
+    // (5b) a clone taken now (fitted model, line-search with history, loaded data source) carries the state over
+    {
+        f.t.steps.push_back("clone the object after the probe and use both");
+        auto late = obj->clone();
+        c.count("clone_equal_checks");
+        if (!late)
+        {
+            f.fail("clone-null", "clone() returned null");
+            return;
+        }
+        if (const auto d = snapshot_diff(after_probe, snapshot(*late)); !d.empty() || serialize(*late) != ser_obj)
+        {
+            f.fail("clone-not-equal", "object (after the probe) vs its clone: " + (d.empty() ? std::string("write() differs") : d));
+            return;
+        }
+        const auto p_obj = post(*obj), p_late = post(*late), p_ctl = post(*control);
+        c.count("clone_behaviour_checks", 2);
+        if (p_obj != p_late || p_obj != p_ctl)
+        {
+            f.fail("clone-behaves-differently", "after the probe: " + sig_diff(p_obj, p_obj != p_late ? p_late : p_ctl));
+            return;
+        }
+    }
+    const auto after_post = snapshot(*obj);
+    if (const auto d = snapshot_diff(after_probe, after_post); !d.empty() || serialize(*obj) != ser_obj)
+    {
+        // (the post-probe only reads)
+        f.fail("clone-behaves-differently", "using the object changed its configuration: " + d);
         return;
     }
     // (6) modify the victim: object and control unaffected (configuration, serialisation, behaviour)
@@ -2437,6 +2478,14 @@ indices_t random_subset(vf::rng_t& rng, const tensor_size_t total, const tensor_
     return samples;
 }
 
+// families whose probe leaves no state behind: the post-probe is the probe itself
+template <class tobject, class tsetup, class tprobe, class tmutate>
+void check_object(fctx_t& f, factory_t<tobject>& factory, const tsetup& setup, const tprobe& probe, const tmutate& mutate,
+                  const bool repeatable)
+{
+    check_object(f, factory, setup, probe, mutate, repeatable, probe);
+}
+
 const auto no_setup  = [](auto&) {};
 const auto no_mutate = [](auto&) {};
 
@@ -2520,7 +2569,25 @@ void family_lsearch0(fctx_t& f)
                 }
             });
     };
-    check_object(f, lsearch0_t::all(), no_setup, probe, no_mutate, false); // stateful: keeps the previous step
+    const auto post = [&](lsearch0_t& l)
+    {
+        return guarded(
+            [&](sig_t& g)
+            {
+                // a short gradient step away from the last probe point: the estimate depends on what the previous call
+                // left behind (function value, slope)
+                const auto prev = solver_state_t{*fn, xs[2]};
+                vector_t   x{fn->size()};
+                x             = xs[2] - 1e-3 * prev.gx();
+                const auto st = solver_state_t{*fn, x};
+                vector_t   d{fn->size()};
+                d             = -st.gx();
+                const auto t0 = l.get(st, d, 0.5);
+                g.add(t0);
+                g.note = scat("t0=", t0);
+            });
+    };
+    check_object(f, lsearch0_t::all(), no_setup, probe, no_mutate, false, post); // stateful: keeps the previous step
 }
 
 void family_lsearchk(fctx_t& f)
@@ -2725,7 +2792,24 @@ void family_wlearner(fctx_t& f)
                 }
             });
     };
-    check_object(f, wlearner_t::all(), no_setup, probe, mutate, true);
+    const auto post = [&](const wlearner_t& w)
+    {
+        return guarded(
+            [&](sig_t& g)
+            {
+                if (w.features().size() > 0 && w.features().min() >= 0)
+                {
+                    g.tensor(w.features());
+                    g.tensor(w.predict(dataset, all));
+                    g.add(w.split(dataset, all).groups());
+                }
+                else
+                {
+                    g.add(std::string("not fitted"));
+                }
+            });
+    };
+    check_object(f, wlearner_t::all(), no_setup, probe, mutate, true, post);
 }
 
 void family_linear(fctx_t& f)
@@ -2764,7 +2848,17 @@ void family_linear(fctx_t& f)
                 g.note = scat("trials=", result.trials(), ",optimum=", result.optimum_trial(), ",weights=", m.weights().size());
             });
     };
-    check_object(f, linear_t::all(), no_setup, probe, no_mutate, true);
+    const auto post = [&](const linear_t& m)
+    {
+        return guarded(
+            [&](sig_t& g)
+            {
+                g.tensor(m.weights());
+                g.tensor(m.bias());
+                g.tensor(m.predict(dataset, samples));
+            });
+    };
+    check_object(f, linear_t::all(), no_setup, probe, no_mutate, true, post);
 }
 
 void family_function(fctx_t& f)
@@ -2863,7 +2957,27 @@ void family_datasource(fctx_t& f)
     }
     const auto setup = [&](datasource_t& d) { d.parameter("datasource::basedir") = base; };
     const auto probe = [&](datasource_t& d) { return datasource_sig(d); };
-    check_object(f, datasource_t::all(), setup, probe, no_mutate, true);
+    const auto post = [&](const datasource_t& d)
+    {
+        return guarded(
+            [&](sig_t& g)
+            {
+                g.add(d.samples());
+                g.add(d.features());
+                g.tensor(d.train_samples());
+                for (tensor_size_t i = 0; i < d.features(); ++i)
+                {
+                    g.add(scat(d.feature(i)));
+                    d.visit_inputs(i,
+                                   [&](const feature_t&, const auto& data, const auto& mask)
+                                   {
+                                       g.tensor(data);
+                                       g.tensor(mask);
+                                   });
+                }
+            });
+    };
+    check_object(f, datasource_t::all(), setup, probe, no_mutate, true, post);
     if (real)
     {
         std::error_code ec;
